@@ -153,21 +153,34 @@ func (s *massiveScenario) classes() []string {
 	return cl
 }
 
-// overlappingRoots: a root named "." (the target directory itself), two roots with the same
-// path, or a root written as a path below another root.
+// overlappingRoots: what one root creates is, or contains, the directory of another root -
+// a root named "." (the target directory itself) next to other roots, two roots with the
+// same path, a root written as a path below another root, or a node whose cleaned path
+// leaves its own root (a node named "..") and lands on another root.
 func overlappingRoots(forest []*MNode) bool {
-	var ps []string
-	for _, r := range forest {
-		p := path.Clean(r.Name)
-		if p == "." {
-			return len(forest) > 1
-		}
-		ps = append(ps, p)
+	if len(forest) < 2 {
+		return false
 	}
-	for i, a := range ps {
-		for j, b := range ps {
-			if i != j && (a == b || strings.HasPrefix(b, a+"/")) {
-				return true
+	roots := make([]string, len(forest))
+	created := make([][]string, len(forest))
+	for i, r := range forest {
+		roots[i] = path.Clean(r.Name)
+		for _, p := range r.Paths("") {
+			created[i] = append(created[i], path.Clean(p))
+		}
+	}
+	for j, pj := range roots {
+		if pj == "." {
+			return true
+		}
+		for i := range forest {
+			if i == j {
+				continue
+			}
+			for _, q := range created[i] {
+				if q == pj || strings.HasPrefix(q, pj+"/") {
+					return true
+				}
 			}
 		}
 	}
@@ -474,7 +487,7 @@ func caseC10(c *Ctx) {
 	// document order the parser sees what simple mode sees, so that schedule must agree with
 	// simple mode; if even it does not, the difference is something else.
 	docOrder := func() {
-		if !strings.Contains(cls, "mixed-units") || strings.Contains(cls, "sharp-roots") {
+		if !strings.Contains(cls, "mixed-units") || strings.Contains(cls, "sharp-roots") || strings.Contains(cls, "overlapping-roots") {
 			return
 		}
 		d3 := s.prepareTarget(c, 3)
